@@ -115,6 +115,26 @@ CASES = {
 }
 CASES["Deep_int"] = (Deep[int], {"x": "list_int", "y": "list_int", "z": "int"})      # Child2[List[T]] with T=int
 
+# generic type aliases (PEP 695) whose value uses the parameters in another order than the alias declares them
+type RevMap[K, V] = dict[V, K]
+type SwapT[A, Bb] = tuple[Bb, A]
+type Nest[T1, U1] = dict[U1, list[T1]]
+type SameOrder[K, V] = dict[K, V]
+@dataclasses.dataclass
+class WithAlias(Generic[T]):
+    m: RevMap[int, T]
+ALIASES = {
+    "RevMap_int_str": (RevMap[int, str], ("dict", "str", "int")),
+    "RevMap_str_int": (RevMap[str, int], ("dict", "int", "str")),
+    "SwapT_int_str": (SwapT[int, str], ("tuple2", "str", "int")),
+    "Nest_int_str": (Nest[int, str], ("dict", "str", "list_int")),
+    "SameOrder_str_int": (SameOrder[str, int], ("dict", "str", "int")),
+}
+ALD, AERR = {}, []
+for _n, (_t, _e) in ALIASES.items():
+    try: ALD[_n] = RET.get_loader(_t) if "RET" in globals() else None
+    except Exception as _e2: AERR.append((_n, repr(_e2)[:200]))
+
 def val(sel, i, s):
     if sel == 0: return i
     if sel == 1: return s
@@ -141,6 +161,31 @@ for _n, (_t, _f) in CASES.items():
         LD[_n] = RET.get_loader(_t); DP[_n] = RET.get_dumper(_t)
     except Exception as _e:
         ERR.append((_n, repr(_e)[:200]))
+
+for _n, (_t, _e) in ALIASES.items():
+    try: ALD[_n] = RET.get_loader(_t)
+    except Exception as _e2: AERR.append((_n, repr(_e2)[:200]))
+try:
+    ALD["WithAlias_str"] = RET.get_loader(WithAlias[str])
+except Exception as _e2: AERR.append(("WithAlias_str", repr(_e2)[:200]))
+
+def alias_case(name, s0, s1, i, s):
+    """a parametrised generic alias is loaded as its value with every parameter replaced by the argument bound to THAT parameter"""
+    a, b = val(s0, i, s), val(s1, i, s)
+    if name == "WithAlias_str":
+        if type(a) not in (int, str): return True
+        o = outcome(ALD[name], {"m": {a: b}})
+        return (o[0] == "ok") == (conf("str", a) and conf("int", b)) and o[0] != "other_exc"
+    tp, (shape, t0, t1) = ALIASES[name]
+    if shape == "dict":
+        if type(a) not in (int, str): return True           # keys must be hashable atoms
+        data = {a: b}
+        exp_ok = conf(t0, a) and conf(t1, b)
+    else:
+        data = [a, b]
+        exp_ok = conf(t0, a) and conf(t1, b)
+    o = outcome(ALD[name], data)
+    return o[0] != "other_exc" and exp_ok == (o[0] == "ok")
 
 def generic_case(name, sels, i, s):
     """loading succeeds iff every field datum conforms to the SUBSTITUTED type of that field; the dump of the loaded object
@@ -173,5 +218,11 @@ def build(tier, seed):
              pre=["0 <= s0 <= 5 and 0 <= s1 <= 5 and 0 <= s2 <= 5 and 0 <= s3 <= 5", "len(s) <= 1"], timeout=tmo,
              family="generic hierarchies: substituted field types decide acceptance (strict mode), data symbolic",
              bounds="per field a datum from {int, str, [int], None, [str], bool} by selector with symbolic int / str (len<=1) payloads; every combination")
+    m.ob("alias_creation", "x: int", "return not AERR", timeout=30, family="generic type aliases", bounds="loader creation")
+    for an in ["RevMap_int_str", "RevMap_str_int", "SwapT_int_str", "Nest_int_str", "SameOrder_str_int", "WithAlias_str"]:
+        m.ob(f"alias_{an}", "s0: int, s1: int, i: int, s: str", f"return alias_case({an!r}, s0, s1, i, s)",
+             pre=["0 <= s0 <= 5 and 0 <= s1 <= 5", "s in ('', 'a')", "-1 <= i <= 1"], timeout=tmo,
+             family="generic type aliases (PEP 695): parameters substituted by name, not by position in the value",
+             bounds="key/first and value/second datum from {int, str, [int], None, [str], bool} with symbolic payloads")
     return Plan("C16", [m], assumptions=["expected field types are known by construction of the hierarchy"],
                 bounds={"hierarchy depth": "<=3", "type variables": "<=2"}, outside=["pydantic generic models", "TypeVarTuple"])
